@@ -593,8 +593,7 @@ class R:
                 return NAN
         # harness-provided candidates (checked by the solver, hence sound): sqrt(x) = c if x == c*c and c >= 0
         for c in SPACE.sqrt_candidates:
-            f = z3.And(self.eqz(c * c), c.lez(0) == False) if False else z3.And(self.eqz(c * c), (c >= 0).z())
-            if SPACE.check(z3.Not(f), timeout_ms=2000) == "unsat":
+            if SPACE.proved(z3.And(self.eqz(c * c), (c >= 0).z()), timeout_ms=2000):
                 return c
         # sqrt(n/d) = sqrt(n*d)/d, introduced lazily
         return R.lazy_sqrt(self)
@@ -732,6 +731,7 @@ class Space:
         self.prefix = list(prefix)
         self.pc = []
         self.assumed = []
+        self.dirty = True
         self.trail = []  # entries: [kind, value, remaining]  kind 'b' (bool) / 'c' (choice)
         self.pos = 0
         self.nchoice = 0
@@ -808,12 +808,34 @@ class Space:
             raise PathAbort("assumed False")
         self.pc.append(c)
         self.assumed.append(c)
+        self.dirty = True  # an assumption may have made the path condition unsatisfiable: the next branch checks both sides
+
+    def proved(self, f, timeout_ms=3000):
+        """True iff the solver proves pc => f.  The answer steers the environment model (which closed form / candidate a stub
+        uses), so it is RECORDED on the trail: a replayed prefix must take exactly the same decisions even if a solver call that
+        succeeded the first time would now time out (timeouts are not reproducible under load)."""
+        if self.pos < len(self.trail):
+            ent = self.trail[self.pos]
+            assert ent[0] == "d", "non-deterministic harness (decision/branch mismatch)"
+            self.pos += 1
+            return ent[1]
+        if isinstance(f, B):
+            f = f.z()
+        fs = z3.simplify(f)
+        if z3.is_true(fs):
+            r = True
+        elif z3.is_false(fs):
+            r = False
+        else:
+            r = self.check(z3.Not(f), timeout_ms=timeout_ms, fallback=False) == "unsat"
+        self.trail.append(["d", r, 0])
+        self.pos += 1
+        return r
 
     def assume_feasible(self, c):
         """assume c and abort the path if the path condition became unsatisfiable."""
         self.assume(c)
-        r = self.check()
-        if r == "unsat":
+        if self.proved(z3.BoolVal(False), timeout_ms=self.branch_timeout_ms):
             raise PathAbort("assumption infeasible")
 
     # --- forking
@@ -825,12 +847,17 @@ class Space:
             return False
         if self.pos < len(self.trail):
             ent = self.trail[self.pos]
-            assert ent[0] == "b", "non-deterministic harness (bool/choice mismatch)"
+            assert ent[0] == "b", f"non-deterministic harness (expected a branch, trail has {ent[0]})"
             val = ent[1]
         else:
             bt = self.branch_timeout_ms
             rf = self.check(z3.Not(cond), timeout_ms=bt, fallback=False)
-            rt = "sat" if rf == "unsat" else self.check(cond, timeout_ms=bt, fallback=False)  # pc is kept feasible: one side must be
+            if rf == "unsat" and not self.dirty:
+                rt = "sat"  # the path condition is known to be satisfiable, so the other side must be
+            else:
+                rt = self.check(cond, timeout_ms=bt, fallback=False)
+            if rt == "sat" or rf == "sat":
+                self.dirty = False
             if rt == "unknown" or rf == "unknown":
                 self.n_branch_unknown += 1  # explored as feasible (over-approximation, sound for 'holds' verdicts)
             t_ok, f_ok = rt != "unsat", rf != "unsat"
@@ -889,6 +916,7 @@ class Space:
     def begin_path(self):
         self.pc = []
         self.assumed = []
+        self.dirty = True
         self.pos = 0
         self.nchoice = 0
         self.nfresh = 0
